@@ -28,8 +28,8 @@ CONSTANTS
   PKinds <- KStructCmt
   MaxEdits = 3
   NCmtCls = 9
-  NCppForms = 29
-  NGarb = 7
+  NCppForms = 30
+  NGarb = 8
   DirectiveCls <- DirCls
 INVARIANT WellNested
 INVARIANT GrammarInNest
